@@ -35,7 +35,7 @@ SIGNATURES = {
 }
 ELEMENTWISE_BIN = {
     "add": "+", "subtract": "-", "multiply": "*", "divide": "/", "true_divide": "/",
-    "logical_and": "and", "logical_or": "or", "equal": "==", "maximum": "maximum", "minimum": "minimum",
+    "logical_and": "and", "logical_or": "or", "maximum": "maximum", "minimum": "minimum",
 }
 NS_PREFIXES = ("jax.numpy.", "numpy.", "jax.ops.", "jax.scipy.special.", "jax.lax.", "jax.nn.")
 METHODS = {
@@ -262,15 +262,12 @@ def norm(t, _arith=True):  # noqa: C901, PLR0911, PLR0912
     if tag == "binop" and t[1] in ("&", "|"):
         xs = sorted((norm(t[2]), norm(t[3])), key=repr)
         return ("op", "and" if t[1] == "&" else "or", tuple(xs))
-    if tag == "cmp" and t[1] == ("==",):
-        xs = sorted((norm(t[2][0]), norm(t[2][1])), key=repr)
-        return ("op", "==", tuple(xs))
-    if tag == "cmp" and len(t[1]) == 1 and t[1][0] in ("<", ">", "<=", ">=", "!="):
+    if tag == "cmp" and len(t[1]) == 1 and t[1][0] in ("<", ">", "<=", ">=", "!=", "=="):
         a, b = norm(t[2][0]), norm(t[2][1])
         op = t[1][0]
         if repr(a) > repr(b):
             a, b = b, a
-            op = {"<": ">", ">": "<", "<=": ">=", ">=": "<=", "!=": "!="}[op]
+            op = {"<": ">", ">": "<", "<=": ">=", ">=": "<=", "!=": "!=", "==": "=="}[op]
         return ("cmp", (op,), (a, b))
     if tag == "boolop":
         return ("boolop", t[1], tuple(norm(x) for x in t[2]))
